@@ -73,7 +73,7 @@ def kmeans_cases(ck):
                 for lab in itertools.product(range(k), repeat=n):
                     if ck.thorough() or n <= 2 or (n == 3 and sum(lab) % 2 == 0) or (sum(xs) * 7 + sum(lab) * 3 + k) % 23 == 0:
                         groups.append((np.array(xs).reshape(n, 1), k, list(lab), F(1, 10000)))
-    N = ck.n(140, 2400)
+    N = ck.n(140, 1800)
     for t in range(N):
         n = int(rng.integers(2, 9 if t % 5 else 13))
         p = int(rng.integers(1, 6))
@@ -348,7 +348,7 @@ def graph_cases(ck):
         p = p or int(rng.integers(1, 4))
         hi = hi or int(rng.choice([2, 3, 6]))
         out.append((name, n, E, rng.integers(0, hi, size=(n, p))))
-    reps = ck.n(3, 12)
+    reps = ck.n(3, 8)
     for r in range(reps):
         for n in (6, 9, 12, 16):
             add("path", n, [(i, i + 1) for i in range(n - 1)])
